@@ -58,6 +58,15 @@ def holders():
     add("all_any_fresh", "", "print([1, 2, 3].iter().map(|x| ['a' + x.str()]).all(|p| { let j = [p]; return p[0].len() == 2; }), [1, 2].iter().map(|x| [x]).any(|p| { let j = [p, p]; return p[0] == 2; }));")
     add("first_last_fresh", "", "print([1, 2, 3].iter().map(|x| ['z' + x.str()]).last(), [1, 2].iter().map(|x| ['y' + x.str()]).skip(1).first(), [1, 2, 3].iter().map(|x| [x]).take(2).list());")
     add("sort_fresh_result", "", "print([3, 1, 2].iter().map(|x| [x, 's' + x.str()]).list().sort(|a, b| { let t = [a, b, 'tmp' + a[1]]; return a[0] - b[0]; }));")
+    # values that die and whose equal is built again later: nothing of the dead one (an intern-table entry, a cache entry, a forwarding pointer) may be found again
+    add("string_dropped_and_rebuilt", "", "let s = 'dr' + 'op' + 1.str(); let n = s.len(); s = nil; let pad = [1, 2]; let t = 'dr' + 'op' + 1.str(); print(n, t, t.len(), t == 'drop' + '1', {t: 1}['dro' + 'p1']);")
+    # ... followed by other strings of the same size (an allocator that hands a released block out again gives them the dead one's block)
+    add("string_rebuilt_then_same_size_strings", "", "let s = 'ab' + 'cd' + 1.str(); s = nil; let pad = [1, 2]; let t = 'ab' + 'cd' + 1.str(); let u = 'zz' + 'zz' + 2.str(); let w = 'yy' + 'yy' + 3.str(); let x = 'xx' + 'xx' + 4.str(); print(t, u, w, x, t == 'abcd' + '1', t.len());")
+    add("strings_rebuilt_alternating", "", "let out = []; for i in 4.times() { let s = 'k' + (i - (i / 2).floor() * 2).str() + 'k'; out.push(s.len()); s = nil; let o = 'o' + i.str() + 'o'; out.push(o); } print(out, 'k0k' == 'k' + '0k', 'k' + '1' + 'k');")
+    add("string_rebuilt_in_loop", "", "let seen = []; for i in 3.times() { let s = 'lo' + 'op'; seen.push(s.len()); let junk = [i, [i]]; } let t = 'lo' + 'op'; print(seen, t, t == 'loop');")
+    add("string_rebuilt_by_natives", "", "let a = ['x', 'y'].iter().map(|c| c + 'z').list(); a.clear(); let pad = [[1], [2]]; let b = ['x', 'y'].iter().map(|c| c + 'z').list(); print(b, b[0] == 'x' + 'z', 'xz,yz'.split(',').list() == b);")
+    add("string_rebuilt_by_interpolation", "", "let n = 7; let s = 'v${n}w'; s = nil; let pad = [n]; let t = 'v${n}w'; print(t, t.len(), t == 'v7' + 'w', [t].has('v' + '7w'));")
+    add("long_string_dropped_and_rebuilt", "", "let mk = || { let s = ''; for i in 40.times() { s = s + 'q' + i.str(); } return s; }; let a = mk(); let n = a.len(); a = nil; let pad = [1]; let b = mk(); print(n, b.len(), b == mk(), b.slice(0, 6));")
     add("chain_fresh", "", "print([1].iter().map(|x| ['c' + x.str()]).chain([2].iter().map(|x| ['d' + x.str()])).list());")
     add("sort_temp", "", "print([[3], [1], [2]].sort(|a, b| { let t = [a, b]; return a[0] - b[0]; }));")
     add("interpolation_parts", "class S { init(v) { self.v = v; } str() { let t = [1, 2]; return 's' + self.v.str(); } }", "print('a${S(1)}b${S(2)}c${[S(3)]}d');")
